@@ -190,6 +190,10 @@ class FileStorageFormatter:
                 return _file.read(h.plen), h.tid, back, h.tloc
             if h.back == 0 and not fail:
                 return None, h.tid, back, h.tloc
+            if h.back >= back:
+                # Back pointers lead towards the start of the file;
+                # one that does not is damage and could loop for ever.
+                raise CorruptedDataError(oid, None, back)
             back = h.back
 
     def _loadBackTxn(self, oid, back, fail=True):
